@@ -550,3 +550,15 @@ for _p in ('C04', 'C05', 'C06'):
     PROPS[_p]['min_obs'] = dict(PROPS[_p]['min_obs'])
     PROPS[_p]['min_obs']['quick'] = dict(PROPS[_p]['min_obs'].get('quick', {}), **{'histories_with_an_eight_byte_hardware_address': 500})
     PROPS[_p]['rule'] = PROPS[_p]['rule'] + ' One history in eight makes a station with an EUI-64 (8 byte) hardware address known through Capture / Release / SetDHCPv4IPOffer; its first six bytes are those of another station.'
+
+# features added after the fourteenth round
+PROPS['C20']['min_obs'] = dict(PROPS['C20']['min_obs'])
+PROPS['C20']['min_obs']['quick'] = dict(PROPS['C20']['min_obs'].get('quick', {}), **{'struct_fields_compared_with_their_own_rendering': 500})
+_RULE_ADD8 = {
+    'C03': ' A quarter of the chains complete the Ethernet layer on a view that already carries an earlier, shorter frame (a reused view).',
+    'C07': ' Every advertisement of the RA daemon (StartRADVS, its ticker, SendRA) must carry the prefix and DNS servers the caller asked for, also after the handler learned another LAN router meanwhile.',
+    'C19': ' Truncated IPv6 echo replies may come with the missing bytes (identifier first) as link layer trailer behind the declared payload.',
+    'C20': ' Line.Struct(v) must append exactly what v.FastLog appends, for zero values of Addr, Notification, NameEntry and DNSEntry as for filled ones.',
+}
+for _p, _t in _RULE_ADD8.items():
+    PROPS[_p]['rule'] = PROPS[_p]['rule'] + _t
